@@ -130,6 +130,15 @@ static void scenario() {
             if (once) make_edge(wo, S2); else make_edge(ow, S2); g.wait_for_all(); quiet = true; vf_window(0);
             if (got2.size() != 1 || got2[0] != cur) vf_fail("%s delivered %zu values (first %d) to a successor attached later, the stored value %d was expected", k, got2.size(), got2.empty() ? -1 : got2[0], cur);
             vf_outcome("cur=%d r=%d%d ", cur, r1, r2); }
+        else if (streq(k, "ow_register")) {   // overwrite_node holding a value: one thread attaches a successor while another thread puts a newer value - the new successor must end up with the latest value
+            overwrite_node<int> ow(g); std::vector<int> got; function_node<int, continue_msg> S1(g, serial, [&](int v) { got.push_back(v); vf_point(); return continue_msg(); });
+            ow.try_put(1); static int r2; r2 = -1;
+            auto ids = gated(1, initext, [&](int) { r2 = ow.try_put(2); });
+            vf_window(1); vf_gate_open(); make_edge(ow, S1); join_all(ids); g.wait_for_all(); quiet = true; vf_window(0);
+            int cur = -1; if (!ow.try_get(cur) || cur != 2 || !r2) vf_fail("overwrite_node holds %d after put(1), put(2)", cur);
+            if (got.empty() || got.back() != 2) vf_fail("a successor attached to an overwrite_node while a newer value was put ended up with %d as its last value (received %zu values); the node holds %d", got.empty() ? -1 : got.back(), got.size(), cur);
+            for (size_t i = 0; i < got.size(); i++) for (size_t j = i + 1; j < got.size(); j++) if (got[i] == got[j]) vf_fail("value %d delivered twice to the new successor", got[i]);
+            vf_outcome("got=%zu ", got.size()); }
         else vf_fail("unknown kind");
         vf_outcome("rejected=%d F:%s F2:%s S:%s", rejected, ord(f).c_str(), ord(f2).c_str(), ord(s).c_str());
     });
